@@ -153,7 +153,7 @@ class Prop:
             "non-trivial = a node at relative depth >= 2 or two siblings exist (so ancestor and last/non-last segments both occur)")
     exhaustive_note = "all forest shapes <= 4 nodes x all styles (quick); <= 5 nodes x all styles, 6 nodes x a third of the styles (thorough)"
     assumptions = [
-        "is-last-sibling is positional in the model (no following sibling); PROVED equal to the identity tests of the relationship-query model (C10: q_is_last of every ancestor's own context, get_parent_list order) for forests with unique node identities (theorem C16_flags_are_the_identity_tests_of_the_code); uniqueness of identities is C01",
+        "is-last-sibling is positional in the model (no following sibling); PROVED equal to the identity tests of the relationship-query model (C10: q_is_last of the located context of every member of get_parent_list(), in that order; q_is_last / q_has_children of the node) for forests with unique node identities (theorem C16_flags_are_the_identity_tests_of_the_code); uniqueness of identities is C01",
         "the rendering of a node (repr string/callable) is an input of the model; the harness computes it independently of format()",
         "tree names need no escaping in repr(): title line is Cls<'name'>",
         "to keep case terms small, Tree.format_iter(title=default/False) and Tree.format(join=) are compared with the model as full text, the other observations (titles True/text/'', every start node, system root) as (line count, 61-bit polynomial hash) computed by the same formula on both sides; the oracle always sees the full lines",
